@@ -98,7 +98,10 @@ def sweep_c(run, cname, limit, out):
     n_ok, tv_n = 0, 0
     for jargs, o in zip(batch, outs):
         out['evaluations'] += 1
-        bad = chk.check_ensures(jargs, o)
+        raw = chk.check_ensures(jargs, o)
+        bad = replay.definite(raw)
+        if len(raw) != len(bad):
+            out['unevaluated'] = out.get('unevaluated', 0) + 1
         if bad:
             out['violations'].append(dict(function=cname, input=jargs, outcome=o, violated=bad))
             if len(out['violations']) > 5:
@@ -141,17 +144,19 @@ def sweep(run, cnames, limit):
         chk = replay.ConcreteChecker(run.program, cname)
         n_ok = 0
         batch = []
+        batch_cases = []
         per_case = max(20, limit // max(1, len(c.cases or [1])))
         for case in (c.cases or [dict(label='')]):
             k = 0
             try:
                 for jargs in replay.enumerate_inputs(c, case, run.rng, 3, per_case * 6):
                     try:
-                        if not chk.check_requires(jargs):
+                        if not chk.check_requires(jargs, case):
                             continue
                     except Unsupported:
                         continue
                     batch.append(jargs)
+                    batch_cases.append(case)
                     k += 1
                     if k >= per_case:
                         break
@@ -163,11 +168,14 @@ def sweep(run, cnames, limit):
             continue
         outs = replay.native_calls(run.program.repo, [dict(func=cname, args=a) for a in batch])
         tv_n = 0
-        for jargs, o in zip(batch, outs):
+        for jargs, o, case in zip(batch, outs, batch_cases):
             out['evaluations'] += 1
-            bad = chk.check_ensures(jargs, o)
+            raw = chk.check_ensures(jargs, o, case)
+            bad = replay.definite(raw)
+            if len(raw) != len(bad):
+                out['unevaluated'] = out.get('unevaluated', 0) + 1
             if bad:
-                out['violations'].append(dict(function=cname, input=jargs, outcome=o, violated=bad))
+                out['violations'].append(dict(function=cname, input=jargs, outcome=o, violated=bad, case=case.get('label')))
                 if len(out['violations']) > 5:
                     break
                 continue
